@@ -78,7 +78,7 @@ package main
 
 //@ func RedactMongoLog
 //@   safety C07
-//@   props C01 C04 C12 C13 C15 C06
+//@   props C01 C04 C12 C13 C15 C06 C02 C03 C05 C14 C19
 //@   assigns GoMaps, Arr:Val, Mem:OMap, decUseNumber, decFailed
 //@   allocs Arr:Int, Arr:Slice, Mem:Str, Arr:Str
 //@   local c := mkCfg(redactedString, redactNumbers, redactBooleans, shouldEncrypt && encryptionKey != nil, mkbytes(elems(encryptionKey), off(encryptionKey), len(encryptionKey)), redactedFieldsRegexp, emailRegex, redactNamespaces)
@@ -95,11 +95,11 @@ package main
 //@   ensures object-or-error: (result0 == nil) == (result1 != nil)
 //@   ensures top-level-untouched {C04}: implies(result1 == nil, om(result0) == E)
 //@   ensures attr-changes-only-in-zones {C04,C03}: implies(result1 == nil && hasAttr, ChangedOnlyAt(gate, redactIPs, redactNamespaces, len(eagerRedactionPaths) > 0, A, B))
-//@   ensures command-slot {C01,C12}: implies(result1 == nil && hasAttr && gate, SlotOK(c, A, B, "command"))
-//@   ensures cmd-slot {C01,C12}: implies(result1 == nil && hasAttr && gate, SlotOK(c, A, B, "cmd"))
-//@   ensures originating-command-slot {C01,C12}: implies(result1 == nil && hasAttr && gate, SlotOK(c, A, B, "originatingCommand"))
+//@   ensures command-slot {C01,C02,C03,C04,C05,C12,C14,C15,C19}: implies(result1 == nil && hasAttr && gate, SlotOK(c, A, B, "command"))
+//@   ensures cmd-slot {C01,C02,C03,C04,C05,C12,C14,C15,C19}: implies(result1 == nil && hasAttr && gate, SlotOK(c, A, B, "cmd"))
+//@   ensures originating-command-slot {C01,C02,C03,C04,C05,C12,C14,C15,C19}: implies(result1 == nil && hasAttr && gate, SlotOK(c, A, B, "originatingCommand"))
 //@   ensures attr-ns-pseudonymised {C12,C13}: implies(result1 == nil && hasAttr && redactNamespaces && omIdx(A, "ns") >= 0, NsHashed(redactedString, omVal(A, omIdx(A, "ns")), omVal(B, omIdx(A, "ns"))))
-//@   ensures remote-address-replaced {C01}: implies(result1 == nil && hasAttr && redactIPs && omIdx(A, "remote") >= 0 && isStr(omVal(A, omIdx(A, "remote"))), omVal(B, omIdx(A, "remote")) == VStr(C_IP))
+//@   ensures remote-address-replaced {C01,C02,C03,C04,C05,C12,C14,C15,C19}: implies(result1 == nil && hasAttr && redactIPs && omIdx(A, "remote") >= 0 && isStr(omVal(A, omIdx(A, "remote"))), omVal(B, omIdx(A, "remote")) == VStr(C_IP))
 //@   at_call redactFieldNamesFromPlanSummary plan-summary-only-in-field-name-mode {C15}: shouldEagerRedact
 
 //@ func MarshalOrdered
@@ -138,14 +138,15 @@ package main
 //@   assigns nothing
 
 //@ func processMongoLogStream
-//@   props C08 C06 C02 C01
+//@   props C08 C06 C02 C01 C03 C04 C05 C10 C12 C13 C14 C15 C19
 //@   safety C07
-//@   assigns GoMaps, wfailOn, scanErr, outN, stderrN, scannedN, decUseNumber, decFailed, Arr:Val, Mem:OMap, unflushed, bufDirty
+//@   assigns GoMaps, wfailOn, scanErr, outN, stderrN, scannedN, decUseNumber, decFailed, Arr:Val, Mem:OMap, unflushed, bufDirty, scanDone
 //@   allocs Arr:Str
 //@   requires: !wfailOn[outWriter] && !scanErr
 //@   loop 1 invariant io-ok {C08}: !wfailOn[outWriter] && !scanErr
 //@   loop 1 invariant out-grows: outN >= old(outN) && wfailOn == store(old(wfailOn), outWriter, wfailOn[outWriter])
 //@   ensures no-silent-failure {C08}: implies(result == nil, !wfailOn[outWriter] && !scanErr)
+//@   ensures the-whole-input-is-read {C06,C08,C07}: implies(result == nil, scanDone)
 //@   ensures only-io-aborts {C07}: implies(result != nil, wfailOn[outWriter] || scanErr)
 //@   ensures only-this-writer: wfailOn == store(old(wfailOn), outWriter, wfailOn[outWriter])
 //@   ensures out-grows: outN >= old(outN)
@@ -154,15 +155,15 @@ package main
 //@   ensures open-unchanged: openFail == old(openFail)
 //@   loop 1 invariant at-most-one-line-out-per-line-in {C06,C07}: outN - old(outN) <= scannedN - old(scannedN) && scannedN >= old(scannedN)
 //@   ensures at-most-one-line-out-per-line-in {C06,C07}: outN - old(outN) <= scannedN - old(scannedN)
-//@   at_call RedactMongoLog processes-the-scanned-line {C06,C01,C02}: jsonStr == line
-//@   at_call MarshalOrdered serialises-the-redacted-entry {C06,C01,C02}: m == redacted
-//@   at_call fmt.Fprintln writes-the-redacted-line-to-the-output {C06,C01,C02}: w == os.Stderr || ((w == outWriter || bufUnder[w] == outWriter) && len(a) == 1 && a[0] == VStr(bstr(mkbytes(elems(out), off(out), len(out)))))
+//@   at_call RedactMongoLog processes-the-scanned-line {C01,C02,C03,C04,C05,C06,C10,C12,C13,C14,C15,C19}: jsonStr == line
+//@   at_call MarshalOrdered serialises-the-redacted-entry {C01,C02,C03,C04,C05,C06,C10,C12,C13,C14,C15,C19}: m == redacted
+//@   at_call fmt.Fprintln writes-the-redacted-line-to-the-output {C01,C02,C03,C04,C05,C06,C10,C12,C13,C14,C15,C19}: w == os.Stderr || ((w == outWriter || bufUnder[w] == outWriter) && len(a) == 1 && a[0] == VStr(bstr(mkbytes(elems(out), off(out), len(out)))))
 //@   at_call addOneToBar#1 only-blank-lines-are-skipped {C06}: line == ""
 
 //@ func ProcessMongoLogFile
 //@   props C08
 //@   safety C07
-//@   assigns GoMaps, wfailOn, scanErr, openFail, outN, stderrN, scannedN, envOps, decUseNumber, decFailed, Arr:Val, Mem:OMap, unflushed, bufDirty
+//@   assigns GoMaps, wfailOn, scanErr, openFail, outN, stderrN, scannedN, envOps, decUseNumber, decFailed, Arr:Val, Mem:OMap, unflushed, bufDirty, scanDone
 //@   allocs Arr:Str
 //@   requires: !wfailOn[outWriter] && !scanErr && !openFail && fileReader != nil
 //@   requires key-in-use-is-the-persisted-one {C11}: implies(shouldEncrypt && encryptionKey != nil, havePersisted && persistedKey == mkbytes(elems(encryptionKey), off(encryptionKey), len(encryptionKey)))
@@ -176,7 +177,7 @@ package main
 //@ func ProcessMongoLogFileFromReader
 //@   props C08
 //@   safety C07
-//@   assigns GoMaps, wfailOn, scanErr, outN, stderrN, scannedN, envOps, decUseNumber, decFailed, Arr:Val, Mem:OMap, unflushed, bufDirty
+//@   assigns GoMaps, wfailOn, scanErr, outN, stderrN, scannedN, envOps, decUseNumber, decFailed, Arr:Val, Mem:OMap, unflushed, bufDirty, scanDone
 //@   allocs Arr:Str
 //@   requires: !wfailOn[outWriter] && !scanErr
 //@   requires key-in-use-is-the-persisted-one {C11}: implies(shouldEncrypt && encryptionKey != nil, havePersisted && persistedKey == mkbytes(elems(encryptionKey), off(encryptionKey), len(encryptionKey)))
@@ -308,6 +309,7 @@ package main
 //@   may_panic
 //@   assigns redactedFieldsRegexp
 //@   ensures: (re == "") == (redactedFieldsRegexp == nil)
+//@   ensures the-pattern-was-compiled {C18}: re == "" || regexpValid(re)
 
 //@ func main$1$1
 //@   props C17
@@ -326,7 +328,7 @@ package main
 //@   ensures only-when-everything-checks {C09}: fsKind[*decryptionKeyFile] == 1 && b64ok(bstr(fsData[*decryptionKeyFile])) && blen(b64dec(bstr(fsData[*decryptionKeyFile]))) == 64 && b64ok(args[0]) && daeadDecOK(b64dec(bstr(fsData[*decryptionKeyFile])), b64dec(args[0]), noBytes)
 
 //@ func main$1
-//@   props C18 C02 C10
+//@   props C18 C02 C10 C06
 //@   local hasFile := len(args) == 1
 //@   local piped := bitand(fmode(statOf(os.Stdin)), 2097152) == 0
 //@   local proj := *atlasProjectId != ""
@@ -373,6 +375,11 @@ package main
 //@   at_call ProcessMongoLogFile wiring {C01,C05}: redactedString == *replacement && G.redactNumbers == *redactNumbers && G.redactBooleans == *redactBooleans && G.redactIPs == *redactIPs && G.redactNamespaces == *redactNamespaces && G.eagerRedactionPaths == *eagerRedactionPaths && (G.redactedFieldsRegexp == nil) == (*redactedFieldsRegexp == "")
 //@   at_call ProcessMongoLogFileFromReader wiring {C01,C05}: redactedString == *replacement && G.redactNumbers == *redactNumbers && G.redactBooleans == *redactBooleans && G.redactIPs == *redactIPs && G.redactNamespaces == *redactNamespaces && G.eagerRedactionPaths == *eagerRedactionPaths && (G.redactedFieldsRegexp == nil) == (*redactedFieldsRegexp == "")
 //@   at_call ProcessMongoLogFile#1 pairing {C16}: filePath == file && fileName[outWriter] == sprintf2("%s.%d", VStr(*outputFile), VInt(i)) && file == files[i]
+//@   at_call os.Create no-side-effect-before-the-field-pattern-is-checked {C18}: *redactedFieldsRegexp == "" || regexpValid(*redactedFieldsRegexp)
+//@   at_call WriteKeyToFile no-side-effect-before-the-field-pattern-is-checked {C18}: *redactedFieldsRegexp == "" || regexpValid(*redactedFieldsRegexp)
+//@   at_call (*AtlasClient).DownloadClusterLogs no-side-effect-before-the-field-pattern-is-checked {C18}: *redactedFieldsRegexp == "" || regexpValid(*redactedFieldsRegexp)
+//@   at_call ProcessMongoLogFile the-output-file-starts-empty {C06,C16}: ite(bufUnder[outWriter] != 0, bufUnder[outWriter], outWriter) == os.Stdout || stored[fileName[ite(bufUnder[outWriter] != 0, bufUnder[outWriter], outWriter)]] == noBytes
+//@   at_call ProcessMongoLogFileFromReader the-output-file-starts-empty {C06,C16}: ite(bufUnder[outWriter] != 0, bufUnder[outWriter], outWriter) == os.Stdout || stored[fileName[ite(bufUnder[outWriter] != 0, bufUnder[outWriter], outWriter)]] == noBytes
 //@   at_call ProcessMongoLogFile encrypt-wiring {C01,C10}: implies(enc && kf != "", shouldEncrypt && encryptionKey != nil)
 //@   at_call ProcessMongoLogFile placeholder-mode-unless-encrypt-is-asked-for {C02,C10}: implies(!(enc && kf != ""), !(shouldEncrypt && encryptionKey != nil))
 //@   at_call ProcessMongoLogFileFromReader placeholder-mode-unless-encrypt-is-asked-for {C02,C10}: implies(!(enc && kf != ""), !(shouldEncrypt && encryptionKey != nil))
@@ -395,6 +402,8 @@ package main
 
 //@ func isInSearchStage
 //@   safety C07
+//@   props C01 C04
+//@   defines search-stage-decision {C01,C02,C03,C04,C05,C12,C14,C15,C19}: IsSearch(stage, result) := true
 //@   assigns nothing
 //@   loop 1 invariant el-valid: el == nil || elMap(el) == m
 
@@ -425,7 +434,7 @@ package main
 //@   ensures key-path-frame: unchangedBelowExcept("Arr:Str", base(path))
 //@   loop 1 invariant table-entry: (_idx == 0 && current == VMap(operatorMap)) || (_idx >= 1 && TE(path[_idx-1], current))
 //@   ensures range-frame: unchangedOutside("Arr:Str", base(path), off(path), off(path) + len(path) - 1)
-//@   ensures table-entry {C01,C04}: implies(result1 && isOp(result0) && result0 != VOp(5), (len(path) >= 1 && TE(old(path[len(path)-1]), result0)) || MarkerTE(result0))
+//@   ensures table-entry {C01,C02,C03,C04,C05,C12,C14,C15,C19}: implies(result1 && isOp(result0) && result0 != VOp(5), (len(path) >= 1 && TE(old(path[len(path)-1]), result0)) || MarkerTE(result0))
 
 //@ func getOp
 //@   safety C07
@@ -435,7 +444,7 @@ package main
 //@   ensures nil-when-absent: implies(!result1, result0 == nil)
 //@   ensures key-path-frame: unchangedBelowExcept("Arr:Str", base(keyPath))
 //@   ensures range-frame: unchangedOutside("Arr:Str", base(keyPath), off(keyPath), off(keyPath) + len(keyPath) - 1)
-//@   ensures table-entry {C01,C04}: implies(result1 && isOp(result0) && result0 != VOp(5), TE(old(keyPath[len(keyPath)-1]), result0) || MarkerTE(result0))
+//@   ensures table-entry {C01,C02,C03,C04,C05,C12,C14,C15,C19}: implies(result1 && isOp(result0) && result0 != VOp(5), TE(old(keyPath[len(keyPath)-1]), result0) || MarkerTE(result0))
 //@   trusted_ensures: result0 == opAtVal(old(selems(keyPath)), off(keyPath), len(keyPath), isSearchStage) && result1 == opAtOk(old(selems(keyPath)), off(keyPath), len(keyPath), isSearchStage)
 
 //@ func reMatchesAnyKeyInPath
@@ -473,24 +482,24 @@ package main
 //@   local CT := b64enc(daeadEnc(mkbytes(elems(encryptionKey), off(encryptionKey), len(encryptionKey)), sbytes(strOf(v)), noBytes))
 //@   ensures key-path-frame: unchangedBelowExcept("Arr:Str", base(keyPath)) && unchangedOutside("Arr:Str", base(keyPath), off(keyPath), off(keyPath) + len(keyPath) - 1)
 //@   ensures string-class-placeholder {C05,C02,C19,C10}: implies(isStr(v), result == v || result == VStr(P) || (enc && result == VStr(CT)))
-//@   ensures string-kept-only-where-allowed {C01}: implies(isStr(v) && result == v, (sel && !named) || polExempt(pk) || v == VStr(P) || (enc && v == VStr(CT)))
+//@   ensures string-kept-only-where-allowed {C01,C02,C03,C04,C05,C12,C14,C15,C19}: implies(isStr(v) && result == v, (sel && !named) || polExempt(pk) || v == VStr(P) || (enc && v == VStr(CT)))
 //@   ensures number-zero-or-kept {C05,C03,C04}: implies(isNum(v), result == v || (redactNumbers && result == VF64(f64_0)))
-//@   ensures number-kept-only-where-allowed {C01,C04}: implies(isNum(v) && result == v, !redactNumbers || (sel && !named) || polExempt(pk))
+//@   ensures number-kept-only-where-allowed {C01,C02,C03,C04,C05,C12,C14,C15,C19}: implies(isNum(v) && result == v, !redactNumbers || (sel && !named) || polExempt(pk))
 //@   ensures number-verbatim-without-flag {C04}: implies(isNum(v) && !redactNumbers, result == v)
 //@   ensures boolean-false-or-kept {C05,C03}: implies(isBool(v), result == v || (redactBooleans && result == VBool(false)))
-//@   ensures boolean-kept-only-where-allowed {C01}: implies(isBool(v) && result == v, !redactBooleans || (sel && !named) || polExempt(pk) || v == VBool(false))
+//@   ensures boolean-kept-only-where-allowed {C01,C02,C03,C04,C05,C12,C14,C15,C19}: implies(isBool(v) && result == v, !redactBooleans || (sel && !named) || polExempt(pk) || v == VBool(false))
 //@   ensures null-stays-null {C03}: implies(v == nil, result == nil)
 //@   ensures unchanged-when-no-name-matches {C14}: implies(sel && !named, result == v)
 //@   ensures redacted-when-a-name-matches {C14}: implies(sel && named && isStr(v) && !polExempt(pk), result == VStr(P) || (enc && result == VStr(CT)))
 //@   ensures search-stage-ignores-selection {C14}: implies(isSearchStage && isStr(v) && !polExempt(pk), result == VStr(P) || (enc && result == VStr(CT)))
 //@   local c := mkCfg(redactedString, redactNumbers, redactBooleans, shouldEncrypt && encryptionKey != nil, mkbytes(elems(encryptionKey), off(encryptionKey), len(encryptionKey)), redactedFieldsRegexp, emailRegex, redactNamespaces)
-//@   ensures leaf-relation {C01,C03,C05,C02}: LeafOK(c, isSearchStage, pk, gpk, v, result)
+//@   ensures leaf-relation {C01,C02,C03,C04,C05,C12,C14,C15,C19}: LeafOK(c, isSearchStage, pk, gpk, v, result)
 //@   local keptByOperator := opAtOk(selems(keyPath), off(keyPath), len(keyPath), isSearchStage) && opAtVal(selems(keyPath), off(keyPath), len(keyPath), isSearchStage) == VOp(1)
 //@   ensures exact-leaf-function {C02,C19}: implies(!enc && (v == nil || isStr(v) || isNum(v) || isBool(v)), result == ite(keptByOperator || (sel && !named), v, leafPH(c, pk, gpk, v)))
 
 //@ func parseValue
 //@   safety C07
-//@   props C06 C08 C03
+//@   props C06 C08 C03 C04
 //@   assigns decFailed
 //@   allocs Mem:OMap, Arr:Val
 //@   requires decoder: dec != nil
@@ -499,6 +508,10 @@ package main
 //@   loop 2 invariant frame: unchangedBelow("Mem:OMap") && unchangedBelow("Arr:Val") && (base(arr) == 0 || base(arr) > old(heapTop))
 //@   ensures fresh-map: implies(isMap(result0), mapOf(result0) > old(heapTop) && mapOf(result0) <= heapTop && !isTable(mapOf(result0)))
 //@   requires no-error-so-far: !decFailed[dec]
+//@   snapshot_after (*encoding/json.Decoder).Token#1 first:Val := result0
+//@   ensures a-document-for-an-opening-brace {C03,C04,C06,C07}: implies(result1 == nil && isOther(first) && xvOf(first) == 123, isMap(result0))
+//@   ensures an-array-for-an-opening-bracket {C03,C04,C06,C07}: implies(result1 == nil && isOther(first) && xvOf(first) == 91, isArr(result0))
+//@   ensures a-scalar-token-is-returned-as-it-is {C03,C04,C06,C07}: implies(result1 == nil && !isOther(first), result0 == first)
 //@   loop 1 invariant no-error-so-far {C06,C08,C03}: !decFailed[dec] && decFailed == store(old(decFailed), dec, decFailed[dec])
 //@   loop 2 invariant no-error-so-far {C06,C08,C03}: !decFailed[dec] && decFailed == store(old(decFailed), dec, decFailed[dec])
 //@   ensures a-value-is-returned-only-if-every-token-was-read-without-error {C06,C08,C03}: implies(result1 == nil, !decFailed[dec])
@@ -514,7 +527,7 @@ package main
 
 //@ func redactArrayValuesWithKey
 //@   safety C07
-//@   props C01 C03 C14 C15 C02 C06
+//@   props C01 C03 C14 C15 C02 C06 C04 C05 C12 C19
 //@   assigns Arr:Str, Arr:Val, GoMaps
 //@   allocs Arr:Int, Mem:OMap
 //@   local c := mkCfg(redactedString, redactNumbers, redactBooleans, shouldEncrypt && encryptionKey != nil, mkbytes(elems(encryptionKey), off(encryptionKey), len(encryptionKey)), redactedFieldsRegexp, emailRegex, redactNamespaces)
@@ -523,24 +536,24 @@ package main
 //@   loop 1 invariant key-path-frame: unchangedBelowExcept("Arr:Str", base(keyPath))
 //@   loop 1 invariant scalar-path: (len(keyPath) > 0 && scalarPath == keyPath) || (len(keyPath) == 0 && len(scalarPath) == 1 && scalarPath[0] == parentKey && base(scalarPath) != base(keyPath) && base(scalarPath) <= heapTop)
 //@   loop 1 mandatory
-//@   loop 1 each element-relation {C01,C02,C03,C05}: ElemRelA(c, redactFieldNames, isSearchStage, ite(len(keyPath) > 0, keyPath[len(keyPath)-1], parentKey), item, arr[_idx])
+//@   loop 1 each element-relation {C01,C02,C03,C04,C05,C12,C14,C15,C19}: ElemRelA(c, redactFieldNames, isSearchStage, ite(len(keyPath) > 0, keyPath[len(keyPath)-1], parentKey), item, arr[_idx])
 //@   ensures key-path-frame: unchangedBelowExcept("Arr:Str", base(keyPath))
-//@   defines array-relation {C01,C03,C05,C02}: RelA(c, redactFieldNames, isSearchStage, pk, arr) := true
+//@   defines array-relation {C01,C02,C03,C04,C05,C12,C14,C15,C19}: RelA(c, redactFieldNames, isSearchStage, pk, arr) := true
 //@   at_call redactScalarValue scalars-are-matched-against-the-full-key-path {C14}: len(keyPath) == 0 || (arg_keyPath == keyPath && arg_isSelectivelyRedactable == isSelectivelyRedactable)
 
 //@ func redactArrayValues
 //@   safety C07
-//@   props C01 C03 C02 C06
+//@   props C01 C03 C02 C06 C04 C05 C12 C14 C15 C19
 //@   assigns Arr:Str, Arr:Val, GoMaps
 //@   allocs Arr:Int, Mem:OMap
 //@   local c := mkCfg(redactedString, redactNumbers, redactBooleans, shouldEncrypt && encryptionKey != nil, mkbytes(elems(encryptionKey), off(encryptionKey), len(encryptionKey)), redactedFieldsRegexp, emailRegex, redactNamespaces)
 //@   ensures same-slice: result == arr
 //@   ensures key-path-frame: unchangedBelowExcept("Arr:Str", base(keyPath))
-//@   defines array-relation {C01,C03,C05,C02}: RelA(c, redactFieldNames, isSearchStage, ite(len(keyPath) > 0, keyPath[len(keyPath)-1], ""), arr) := true
+//@   defines array-relation {C01,C02,C03,C04,C05,C12,C14,C15,C19}: RelA(c, redactFieldNames, isSearchStage, ite(len(keyPath) > 0, keyPath[len(keyPath)-1], ""), arr) := true
 
 //@ func redactQueryValues
 //@   safety C07
-//@   props C01 C03 C14 C15 C02 C06
+//@   props C01 C03 C14 C15 C02 C06 C04 C05 C12 C19
 //@   assigns Arr:Str, Arr:Val, GoMaps
 //@   allocs Arr:Int, Mem:OMap
 //@   requires map: obj != nil
@@ -549,10 +562,10 @@ package main
 //@   loop 1 invariant frame: unchangedBelow("Mem:OMap") && newObj > old(heapTop) && newObj <= heapTop && !isTable(newObj) && (el == nil || elMap(el) == obj)
 //@   loop 1 invariant key-path-frame: unchangedBelowExcept("Arr:Str", base(keyPath))
 //@   loop 1 invariant position: el == nil || (0 <= elPos(el) && elPos(el) < omLen(om(obj)))
-//@   loop 1 invariant relation {C01,C02,C03,C05}: QAcc(c, redactFieldNames, isSearchStage, old(om(obj)), ite(el == nil, omLen(old(om(obj))), elPos(el)), om(newObj))
+//@   loop 1 invariant relation {C01,C02,C03,C04,C05,C12,C14,C15,C19}: QAcc(c, redactFieldNames, isSearchStage, old(om(obj)), ite(el == nil, omLen(old(om(obj))), elPos(el)), om(newObj))
 //@   ensures fresh-map: result > old(heapTop) && result <= heapTop && !isTable(result)
 //@   ensures key-path-frame: unchangedBelowExcept("Arr:Str", base(keyPath))
-//@   defines level-relation {C01,C03,C05,C02}: RelQ(c, redactFieldNames, isSearchStage, obj, result) := QRel(c, redactFieldNames, isSearchStage, old(om(obj)), om(result))
+//@   defines level-relation {C01,C02,C03,C04,C05,C12,C14,C15,C19}: RelQ(c, redactFieldNames, isSearchStage, obj, result) := QRel(c, redactFieldNames, isSearchStage, old(om(obj)), om(result))
 //@   at_call redactScalarValue the-key-path-carries-every-name-down-to-the-value {C14}: matchAny(redactedFieldsRegexp, selems(arg_keyPath), off(arg_keyPath), len(arg_keyPath)) == (matchAny(redactedFieldsRegexp, selems(keyPath), off(keyPath), len(keyPath)) || reMatch(redactedFieldsRegexp, k))
 //@   at_call redactQueryValues the-key-path-carries-every-name-down-to-the-value {C14}: matchAny(redactedFieldsRegexp, selems(arg_keyPath), off(arg_keyPath), len(arg_keyPath)) == (matchAny(redactedFieldsRegexp, selems(keyPath), off(keyPath), len(keyPath)) || reMatch(redactedFieldsRegexp, k))
 //@   at_call redactArrayValuesWithKey the-key-path-carries-every-name-down-to-the-value {C14}: matchAny(redactedFieldsRegexp, selems(arg_keyPath), off(arg_keyPath), len(arg_keyPath)) == (matchAny(redactedFieldsRegexp, selems(keyPath), off(keyPath), len(keyPath)) || reMatch(redactedFieldsRegexp, k))
@@ -562,87 +575,89 @@ package main
 
 //@ func augmentOp
 //@   safety C07
-//@   props C01 C06
+//@   props C01 C06 C02 C03 C04 C05 C12 C14 C15 C19
 //@   assigns nothing
 //@   allocs Mem:OMap
 //@   requires maps: op != nil && v != nil
 //@   requires operator-table: isTable(op)
 //@   loop 1 invariant frame: unchangedBelow("Mem:OMap") && augmentedOp > old(heapTop) && augmentedOp <= heapTop && !isTable(augmentedOp) && (el == nil || elMap(el) == op)
-//@   loop 1 invariant entries-are-table-facts {C01}: AugState(om(augmentedOp))
+//@   loop 1 invariant entries-are-table-facts {C01,C02,C03,C04,C05,C12,C14,C15,C19}: AugState(om(augmentedOp))
 //@   loop 2 invariant frame: unchangedBelow("Mem:OMap") && augmentedOp > old(heapTop) && augmentedOp <= heapTop && !isTable(augmentedOp) && (el == nil || elMap(el) == augmentedOp)
-//@   loop 2 invariant entries-are-table-facts {C01}: AugState(om(augmentedOp))
-//@   ensures copy-of-a-table {C01}: AugState(omOfOpq(result)) && implies(redactedFieldsRegexp == nil, TableState(omOfOpq(result)))
+//@   loop 2 invariant entries-are-table-facts {C01,C02,C03,C04,C05,C12,C14,C15,C19}: AugState(om(augmentedOp))
+//@   ensures copy-of-a-table {C01,C02,C03,C04,C05,C12,C14,C15,C19}: AugState(omOfOpq(result)) && implies(redactedFieldsRegexp == nil, TableState(omOfOpq(result)))
 
 //@ func redactPipelineStage
 //@   safety C07
-//@   props C01 C03 C04 C02 C06
+//@   props C01 C03 C04 C02 C06 C05 C12 C14 C15 C19
 //@   assigns Arr:Str, Arr:Val, GoMaps
 //@   allocs Arr:Int, Mem:OMap
 //@   local c := mkCfg(redactedString, redactNumbers, redactBooleans, shouldEncrypt && encryptionKey != nil, mkbytes(elems(encryptionKey), off(encryptionKey), len(encryptionKey)), redactedFieldsRegexp, emailRegex, redactNamespaces)
 //@   local A := om(mapOf(stage))
 //@   loop 1 invariant frame: unchangedBelow("Mem:OMap") && newMap > old(heapTop) && newMap <= heapTop && !isTable(newMap) && (el == nil || (elMap(el) == mapOf(stage) && 0 <= elPos(el) && elPos(el) < omLen(A)))
 //@   loop 1 invariant key-path-frame: unchangedBelowExcept("Arr:Str", base(keyPath))
-//@   loop 1 invariant relation {C01,C02,C03,C04,C05,C12}: PAcc(c, redactFieldNames, inSearchStage, A, ite(el == nil, omLen(A), elPos(el)), om(newMap))
+//@   loop 1 invariant relation {C01,C02,C03,C04,C05,C12,C14,C15,C19}: PAcc(c, redactFieldNames, inSearchStage, A, ite(el == nil, omLen(A), elPos(el)), om(newMap))
 //@   loop 2 invariant frame: unchangedBelow("Mem:OMap") && newPipelineMap > old(heapTop) && newPipelineMap <= heapTop && !isTable(newPipelineMap) && newPipelineMap != newMap && (subEl == nil || (elMap(subEl) == vMap && 0 <= elPos(subEl) && elPos(subEl) < omLen(old(om(vMap)))))
 //@   loop 2 invariant key-path-frame: unchangedBelowExcept("Arr:Str", base(keyPath))
 //@   loop 2 invariant outer-relation: PAcc(c, redactFieldNames, inSearchStage, A, elPos(el), om(newMap))
-//@   loop 2 invariant sub-pipelines {C01,C03}: FAcc(old(om(vMap)), ite(subEl == nil, omLen(old(om(vMap))), elPos(subEl)), om(newPipelineMap))
+//@   loop 2 invariant sub-pipelines {C01,C02,C03,C04,C05,C12,C14,C15,C19}: FAcc(old(om(vMap)), ite(subEl == nil, omLen(old(om(vMap))), elPos(subEl)), om(newPipelineMap))
 //@   loop 3 invariant key-path-frame: unchangedBelowExcept("Arr:Str", base(keyPath))
-//@   loop 3 each stage-relation {C01,C03}: RelS(c, redactFieldNames, true, stage, newPipeline[_idx]) || RelS(c, redactFieldNames, false, stage, newPipeline[_idx])
+//@   loop 3 each stage-relation {C01,C02,C03,C04,C05,C12,C14,C15,C19}: RelS(c, redactFieldNames, true, stage, newPipeline[_idx]) || RelS(c, redactFieldNames, false, stage, newPipeline[_idx])
 //@   loop 4 invariant key-path-frame: unchangedBelowExcept("Arr:Str", base(keyPath))
-//@   loop 4 each element-relation {C01,C03}: RelS(c, redactFieldNames, inSearchStage, elem, redactedArr[_idx])
+//@   loop 4 each element-relation {C01,C02,C03,C04,C05,C12,C14,C15,C19}: RelS(c, redactFieldNames, inSearchStage, elem, redactedArr[_idx])
 //@   loop 5 invariant frame: unchangedBelow("Mem:OMap") && newSubMap > old(heapTop) && newSubMap <= heapTop && !isTable(newSubMap) && newSubMap != newMap && (subEl == nil || (elMap(subEl) == subMap && 0 <= elPos(subEl) && elPos(subEl) < omLen(old(om(subMap)))))
 //@   loop 5 invariant key-path-frame: unchangedBelowExcept("Arr:Str", base(keyPath))
 //@   loop 5 invariant outer-relation: PAcc(c, redactFieldNames, inSearchStage, A, elPos(el), om(newMap)) && (isTable(mapOf(opMeta)) || (inSearchStage && AugState(om(mapOf(opMeta))) && implies(redactedFieldsRegexp == nil, TableState(om(mapOf(opMeta))))))
-//@   loop 5 invariant relation-sub {C01,C02,C03,C04,C05,C12}: PAcc(c, redactFieldNames, inSearchStage, old(om(subMap)), ite(subEl == nil, omLen(old(om(subMap))), elPos(subEl)), om(newSubMap))
+//@   loop 5 invariant relation-sub {C01,C02,C03,C04,C05,C12,C14,C15,C19}: PAcc(c, redactFieldNames, inSearchStage, old(om(subMap)), ite(subEl == nil, omLen(old(om(subMap))), elPos(subEl)), om(newSubMap))
 //@   loop 6 invariant key-path-frame: unchangedBelowExcept("Arr:Str", base(keyPath))
-//@   loop 6 each element-relation {C01,C03}: RelS(c, redactFieldNames, inSearchStage, elem, redactedArr[_idx])
-//@   assert_after (*orderedmap.OrderedMap).Set@newMap entry-done {C01,C03,C04}: PAcc(c, redactFieldNames, inSearchStage, A, elPos(el) + 1, om(newMap))
-//@   assert_after (*orderedmap.OrderedMap).Set@newSubMap sub-entry-done {C01,C03,C04}: PAcc(c, redactFieldNames, inSearchStage, old(om(subMap)), elPos(subEl) + 1, om(newSubMap))
-//@   at_call (*orderedmap.OrderedMap).Set@newMap entry-relation {C01,C02,C03,C04,C05,C12}: implies(!((!redactFieldNames && opMeta == VOp(3) && polExprKey(k) && isMap(v) && value == v) || (opMeta == VOp(1) && isArr(v) && value == v)), keyOKq(c, redactFieldNames, k, key) && ElemRelP(c, redactFieldNames, inSearchStage, k, v, value, om(mapOf(v)), om(mapOf(value))))
-//@   at_call (*orderedmap.OrderedMap).Set@newMap entry-relation-expression-document-kept-under-a-field-name-key {C01}: implies((!redactFieldNames && opMeta == VOp(3) && polExprKey(k) && isMap(v) && value == v), keyOKq(c, redactFieldNames, k, key) && ElemRelP(c, redactFieldNames, inSearchStage, k, v, value, om(mapOf(v)), om(mapOf(value))))
-//@   at_call (*orderedmap.OrderedMap).Set@newMap entry-relation-array-kept-under-an-exempt-key {C01}: implies((opMeta == VOp(1) && isArr(v) && value == v) && !(!redactFieldNames && opMeta == VOp(3) && polExprKey(k) && isMap(v) && value == v), keyOKq(c, redactFieldNames, k, key) && ElemRelP(c, redactFieldNames, inSearchStage, k, v, value, om(mapOf(v)), om(mapOf(value))))
-//@   at_call (*orderedmap.OrderedMap).Set@newSubMap sub-entry-relation {C01,C02,C03,C04,C05,C12}: implies(!((!redactFieldNames && subMeta == VOp(3) && polExprKey(subK) && isMap(subV) && value == subV) || (subMeta == VOp(1) && isArr(subV) && value == subV)), keyOKq(c, redactFieldNames, subK, key) && ElemRelP(c, redactFieldNames, inSearchStage, subK, subV, value, om(mapOf(subV)), om(mapOf(value))))
-//@   at_call (*orderedmap.OrderedMap).Set@newSubMap sub-entry-relation-expression-document-kept-under-a-field-name-key {C01}: implies((!redactFieldNames && subMeta == VOp(3) && polExprKey(subK) && isMap(subV) && value == subV), keyOKq(c, redactFieldNames, subK, key) && ElemRelP(c, redactFieldNames, inSearchStage, subK, subV, value, om(mapOf(subV)), om(mapOf(value))))
-//@   at_call (*orderedmap.OrderedMap).Set@newSubMap sub-entry-relation-array-kept-under-an-exempt-key {C01}: implies((subMeta == VOp(1) && isArr(subV) && value == subV) && !(!redactFieldNames && subMeta == VOp(3) && polExprKey(subK) && isMap(subV) && value == subV), keyOKq(c, redactFieldNames, subK, key) && ElemRelP(c, redactFieldNames, inSearchStage, subK, subV, value, om(mapOf(subV)), om(mapOf(value))))
-//@   at_call (*orderedmap.OrderedMap).Set@newPipelineMap facet-entry-relation {C01,C03}: key == subK && FacetEntryRel(subV, value)
+//@   loop 6 each element-relation {C01,C02,C03,C04,C05,C12,C14,C15,C19}: RelS(c, redactFieldNames, inSearchStage, elem, redactedArr[_idx])
+//@   assert_after (*orderedmap.OrderedMap).Set@newMap entry-done {C01,C02,C03,C04,C05,C12,C14,C15,C19}: PAcc(c, redactFieldNames, inSearchStage, A, elPos(el) + 1, om(newMap))
+//@   assert_after (*orderedmap.OrderedMap).Set@newSubMap sub-entry-done {C01,C02,C03,C04,C05,C12,C14,C15,C19}: PAcc(c, redactFieldNames, inSearchStage, old(om(subMap)), elPos(subEl) + 1, om(newSubMap))
+//@   at_call (*orderedmap.OrderedMap).Set@newMap entry-relation {C01,C02,C03,C04,C05,C12,C14,C15,C19}: implies(!((!redactFieldNames && opMeta == VOp(3) && polExprKey(k) && isMap(v) && value == v) || (opMeta == VOp(1) && isArr(v) && value == v)), keyOKq(c, redactFieldNames, k, key) && ElemRelP(c, redactFieldNames, inSearchStage, k, v, value, om(mapOf(v)), om(mapOf(value))))
+//@   at_call (*orderedmap.OrderedMap).Set@newMap entry-relation-expression-document-kept-under-a-field-name-key {C01,C02,C03,C04,C05,C12,C14,C15,C19}: implies((!redactFieldNames && opMeta == VOp(3) && polExprKey(k) && isMap(v) && value == v), keyOKq(c, redactFieldNames, k, key) && ElemRelP(c, redactFieldNames, inSearchStage, k, v, value, om(mapOf(v)), om(mapOf(value))))
+//@   at_call (*orderedmap.OrderedMap).Set@newMap entry-relation-array-kept-under-an-exempt-key {C01,C02,C03,C04,C05,C12,C14,C15,C19}: implies((opMeta == VOp(1) && isArr(v) && value == v) && !(!redactFieldNames && opMeta == VOp(3) && polExprKey(k) && isMap(v) && value == v), keyOKq(c, redactFieldNames, k, key) && ElemRelP(c, redactFieldNames, inSearchStage, k, v, value, om(mapOf(v)), om(mapOf(value))))
+//@   at_call (*orderedmap.OrderedMap).Set@newSubMap sub-entry-relation {C01,C02,C03,C04,C05,C12,C14,C15,C19}: implies(!((!redactFieldNames && subMeta == VOp(3) && polExprKey(subK) && isMap(subV) && value == subV) || (subMeta == VOp(1) && isArr(subV) && value == subV)), keyOKq(c, redactFieldNames, subK, key) && ElemRelP(c, redactFieldNames, inSearchStage, subK, subV, value, om(mapOf(subV)), om(mapOf(value))))
+//@   at_call (*orderedmap.OrderedMap).Set@newSubMap sub-entry-relation-expression-document-kept-under-a-field-name-key {C01,C02,C03,C04,C05,C12,C14,C15,C19}: implies((!redactFieldNames && subMeta == VOp(3) && polExprKey(subK) && isMap(subV) && value == subV), keyOKq(c, redactFieldNames, subK, key) && ElemRelP(c, redactFieldNames, inSearchStage, subK, subV, value, om(mapOf(subV)), om(mapOf(value))))
+//@   at_call (*orderedmap.OrderedMap).Set@newSubMap sub-entry-relation-array-kept-under-an-exempt-key {C01,C02,C03,C04,C05,C12,C14,C15,C19}: implies((subMeta == VOp(1) && isArr(subV) && value == subV) && !(!redactFieldNames && subMeta == VOp(3) && polExprKey(subK) && isMap(subV) && value == subV), keyOKq(c, redactFieldNames, subK, key) && ElemRelP(c, redactFieldNames, inSearchStage, subK, subV, value, om(mapOf(subV)), om(mapOf(value))))
+//@   at_call (*orderedmap.OrderedMap).Set@newPipelineMap facet-entry-relation {C01,C02,C03,C04,C05,C12,C14,C15,C19}: key == subK && FacetEntryRel(subV, value)
 //@   ensures key-path-frame: unchangedBelowExcept("Arr:Str", base(keyPath))
+//@   at_call redactPipelineStage search-mode-is-decided-for-each-stage-on-its-own {C01,C02,C03,C04,C05,C12,C14,C15,C19}: implies(len(arg_keyPath) == 0, IsSearch(arg_stage, arg_inSearchStage))
 //@   ensures result-kind {C03}: (isMap(stage) && isMap(result) && mapOf(result) > old(heapTop) && mapOf(result) <= heapTop && !isTable(mapOf(result))) || (isArr(stage) && result == stage) || (!isMap(stage) && !isArr(stage) && result == stage)
-//@   defines stage-relation {C01,C02,C03,C04,C05,C12}: RelS(c, redactFieldNames, inSearchStage, stage, result) := (isMap(stage) && isMap(result) && PRel(c, redactFieldNames, inSearchStage, A, om(mapOf(result)))) || (isArr(stage) && result == stage && RelA(c, redactFieldNames, inSearchStage, ite(len(keyPath) > 0, keyPath[len(keyPath)-1], ""), arrOf(stage))) || (!isMap(stage) && !isArr(stage) && result == stage)
+//@   defines stage-relation {C01,C02,C03,C04,C05,C12,C14,C15,C19}: RelS(c, redactFieldNames, inSearchStage, stage, result) := (isMap(stage) && isMap(result) && PRel(c, redactFieldNames, inSearchStage, A, om(mapOf(result)))) || (isArr(stage) && result == stage && RelA(c, redactFieldNames, inSearchStage, ite(len(keyPath) > 0, keyPath[len(keyPath)-1], ""), arrOf(stage))) || (!isMap(stage) && !isArr(stage) && result == stage)
 //@   loop 1 each exempt-parameters-are-kept-as-they-are {C04}: implies(opMeta == VOp(1) && !isArr(v), omIdx(om(newMap), redactedKey) >= 0 && omVal(om(newMap), omIdx(om(newMap), redactedKey)) == v)
 //@   loop 5 each exempt-parameters-are-kept-as-they-are {C04}: implies(subMeta == VOp(1) && subFound && !isArr(subV), omIdx(om(newSubMap), subK) >= 0 && omVal(om(newSubMap), omIdx(om(newSubMap), subK)) == subV)
 
 //@ func redactCommand
 //@   safety C07
-//@   props C01 C04 C03 C02 C06
+//@   props C01 C04 C03 C02 C06 C05 C12 C14 C15 C19
 //@   assigns Arr:Val, GoMaps, Mem:OMap
 //@   allocs Arr:Int, Arr:Str
 //@   requires not-a-table: !isTable(cmd)
 //@   local c := mkCfg(redactedString, redactNumbers, redactBooleans, shouldEncrypt && encryptionKey != nil, mkbytes(elems(encryptionKey), off(encryptionKey), len(encryptionKey)), redactedFieldsRegexp, emailRegex, redactNamespaces)
 //@   local A := om(cmd)
 //@   loop 1 invariant key-path-frame: unchangedBelow("Arr:Str")
-//@   loop 1 each stage-relation {C01,C03}: RelS(c, shouldEagerRedact, inSearchStage, stage, newPipeline[_idx])
+//@   loop 1 each stage-relation {C01,C02,C03,C04,C05,C12,C14,C15,C19}: RelS(c, shouldEagerRedact, inSearchStage, stage, newPipeline[_idx])
 //@   assert_after (*orderedmap.OrderedMap).Get#3 keys-so-far: ChangedOnlyZ(A, om(cmd))
 //@   assert_after (*orderedmap.OrderedMap).Get#5 keys-so-far: ChangedOnlyZ(A, om(cmd))
 //@   assert_after (*orderedmap.OrderedMap).Get#7 keys-so-far: ChangedOnlyZ(A, om(cmd))
 //@   assert_after (*orderedmap.OrderedMap).Get#10 keys-so-far: ChangedOnlyZ(A, om(cmd))
 //@   assert_after (*orderedmap.OrderedMap).Get#12 keys-so-far: ChangedOnlyZ(A, om(cmd))
+//@   at_call redactPipelineStage search-mode-is-decided-for-each-stage-on-its-own {C01,C02,C03,C04,C05,C12,C14,C15,C19}: implies(len(arg_keyPath) == 0, IsSearch(arg_stage, arg_inSearchStage))
 //@   ensures only-this-map: unchangedBelowExcept("Mem:OMap", cmd)
 //@   ensures only-zone-keys-change {C04,C03}: implies(cmd != nil, ChangedOnlyZ(A, om(cmd)))
-//@   ensures zone-query-map {C01}: implies(cmd != nil, ZoneMap(c, shouldEagerRedact, A, om(cmd), "query"))
-//@   ensures zone-filter-map {C01}: implies(cmd != nil, ZoneMap(c, shouldEagerRedact, A, om(cmd), "filter"))
-//@   ensures zone-sort-map {C01}: implies(cmd != nil, ZoneMap(c, shouldEagerRedact, A, om(cmd), "sort"))
-//@   ensures zone-update-map {C01}: implies(cmd != nil, ZoneMap(c, shouldEagerRedact, A, om(cmd), "update"))
-//@   ensures zone-update-array {C01}: implies(cmd != nil, ZoneArr(c, shouldEagerRedact, A, om(cmd), "update"))
-//@   ensures zone-updates-array {C01}: implies(cmd != nil, ZoneArr(c, shouldEagerRedact, A, om(cmd), "updates"))
-//@   ensures zone-deletes-array {C01}: implies(cmd != nil, ZoneArr(c, shouldEagerRedact, A, om(cmd), "deletes"))
-//@   ensures zone-q-map {C01}: implies(cmd != nil, ZoneMap(c, shouldEagerRedact, A, om(cmd), "q"))
-//@   ensures zone-u-map {C01}: implies(cmd != nil, ZoneMap(c, shouldEagerRedact, A, om(cmd), "u"))
-//@   ensures zone-u-array {C01}: implies(cmd != nil, ZoneArr(c, shouldEagerRedact, A, om(cmd), "u"))
-//@   ensures zone-arrayFilters-array {C01}: implies(cmd != nil, ZoneArr(c, shouldEagerRedact, A, om(cmd), "arrayFilters"))
-//@   ensures zone-documents-array {C01}: implies(cmd != nil && omIdx(A, "insert") >= 0, ZoneArr(c, shouldEagerRedact, A, om(cmd), "documents"))
-//@   ensures zone-pipeline-array {C01,C03}: implies(cmd != nil && omIdx(A, "pipeline") >= 0 && isArr(omVal(A, omIdx(A, "pipeline"))), isArr(omVal(om(cmd), omIdx(A, "pipeline"))) && len(arrOf(omVal(om(cmd), omIdx(A, "pipeline")))) == len(arrOf(omVal(A, omIdx(A, "pipeline")))))
-//@   defines command-relation {C01}: RelC(c, shouldEagerRedact, cmd) := true
+//@   ensures zone-query-map {C01,C02,C03,C04,C05,C12,C14,C15,C19}: implies(cmd != nil, ZoneMap(c, shouldEagerRedact, A, om(cmd), "query"))
+//@   ensures zone-filter-map {C01,C02,C03,C04,C05,C12,C14,C15,C19}: implies(cmd != nil, ZoneMap(c, shouldEagerRedact, A, om(cmd), "filter"))
+//@   ensures zone-sort-map {C01,C02,C03,C04,C05,C12,C14,C15,C19}: implies(cmd != nil, ZoneMap(c, shouldEagerRedact, A, om(cmd), "sort"))
+//@   ensures zone-update-map {C01,C02,C03,C04,C05,C12,C14,C15,C19}: implies(cmd != nil, ZoneMap(c, shouldEagerRedact, A, om(cmd), "update"))
+//@   ensures zone-update-array {C01,C02,C03,C04,C05,C12,C14,C15,C19}: implies(cmd != nil, ZoneArr(c, shouldEagerRedact, A, om(cmd), "update"))
+//@   ensures zone-updates-array {C01,C02,C03,C04,C05,C12,C14,C15,C19}: implies(cmd != nil, ZoneArr(c, shouldEagerRedact, A, om(cmd), "updates"))
+//@   ensures zone-deletes-array {C01,C02,C03,C04,C05,C12,C14,C15,C19}: implies(cmd != nil, ZoneArr(c, shouldEagerRedact, A, om(cmd), "deletes"))
+//@   ensures zone-q-map {C01,C02,C03,C04,C05,C12,C14,C15,C19}: implies(cmd != nil, ZoneMap(c, shouldEagerRedact, A, om(cmd), "q"))
+//@   ensures zone-u-map {C01,C02,C03,C04,C05,C12,C14,C15,C19}: implies(cmd != nil, ZoneMap(c, shouldEagerRedact, A, om(cmd), "u"))
+//@   ensures zone-u-array {C01,C02,C03,C04,C05,C12,C14,C15,C19}: implies(cmd != nil, ZoneArr(c, shouldEagerRedact, A, om(cmd), "u"))
+//@   ensures zone-arrayFilters-array {C01,C02,C03,C04,C05,C12,C14,C15,C19}: implies(cmd != nil, ZoneArr(c, shouldEagerRedact, A, om(cmd), "arrayFilters"))
+//@   ensures zone-documents-array {C01,C02,C03,C04,C05,C12,C14,C15,C19}: implies(cmd != nil && omIdx(A, "insert") >= 0, ZoneArr(c, shouldEagerRedact, A, om(cmd), "documents"))
+//@   ensures zone-pipeline-array {C01,C02,C03,C04,C05,C12,C14,C15,C19}: implies(cmd != nil && omIdx(A, "pipeline") >= 0 && isArr(omVal(A, omIdx(A, "pipeline"))), isArr(omVal(om(cmd), omIdx(A, "pipeline"))) && len(arrOf(omVal(om(cmd), omIdx(A, "pipeline")))) == len(arrOf(omVal(A, omIdx(A, "pipeline")))))
+//@   defines command-relation {C01,C02,C03,C04,C05,C12,C14,C15,C19}: RelC(c, shouldEagerRedact, cmd) := true
 
 //@ func redactNamespace
 //@   safety C07
